@@ -31,6 +31,7 @@ func init() {
 		spaces[p+".json.shape"] = func(t string) mck.Space { return jsonShapeSpace(v9) }
 		spaces[p+".json.triples"] = func(t string) mck.Space { return jsonTripleSpace(v9) }
 		spaces[p+".json.mixed"] = func(t string) mck.Space { return jsonMixedSpace(v9) }
+		spaces[p+".json.counts"] = func(t string) mck.Space { return jsonCountsSpace(v9, t) }
 	}
 }
 
@@ -620,4 +621,85 @@ func runJSONMsg(c *mck.Ctx, v9 bool, m *ref.Msg, tpls map[uint16]ref.Template, w
 	}
 	c.Outcome("ok")
 	c.Sample(func() interface{} { dd := desc().(map[string]interface{}); dd["json"] = string(out); return dd })
+}
+
+// jsonCountsSpace: size instead of shape - N records, N fields per record, and (IPFIX) one string / octet
+// array value of L octets in front of an integer, with N and L around the powers of two an encoder's
+// buffers and length arithmetic care about. The document must still be one valid, faithful JSON document.
+func jsonCountsSpace(v9 bool, tier string) mck.Space {
+	kinds := flowh.Kinds(v9, true)
+	var fixed []flowh.Kind
+	var vstr, voct *flowh.Kind
+	for i, k := range kinds {
+		if k.F.Len != 65535 && k.F.Len >= 1 && k.F.Len <= 16 && k.F.PEN == 0 {
+			fixed = append(fixed, k)
+		}
+		if k.F.Len == 65535 && k.F.Type == ref.TString && vstr == nil {
+			vstr = &kinds[i]
+		}
+		if k.F.Len == 65535 && k.F.Type == ref.TOctetArray && voct == nil {
+			voct = &kinds[i]
+		}
+	}
+	counts := []int{1, 2, 3, 7, 8, 9, 15, 16, 17, 31, 32, 33, 63, 64, 65, 127, 128, 129, 255, 256, 257, 511, 512, 513, 1000, 1023, 1024, 1025, 2047, 2048, 2049, 4095, 4096, 4097, 8191, 8192, 8193, 16383, 16384, 16385, 32767, 32768, 32769, 60000}
+	if tier == "thorough" {
+		for n := 1; n <= 1100; n++ {
+			counts = append(counts, n)
+		}
+	}
+	modes := []string{"records", "fields", "string-octets", "octetarray-octets"}
+	dims := mck.Radix{uint64(len(modes)), uint64(len(counts))}
+	return mck.FuncSpace{N: dims.Size(), F: func(idx uint64, c *mck.Ctx) {
+		d := dims.Digits(idx)
+		mode, n := modes[d[0]], counts[d[1]]
+		t := ref.Template{ID: 300}
+		var recs []ref.Record
+		rec := func(ks []flowh.Kind, r int) ref.Record {
+			var out ref.Record
+			for f, k := range ks {
+				out = append(out, flowh.FillValue(k, 0, r, f))
+			}
+			return out
+		}
+		switch mode {
+		case "records":
+			ks := []flowh.Kind{fixed[0], fixed[1%len(fixed)], fixed[2%len(fixed)]}
+			for _, k := range ks {
+				t.Fields = append(t.Fields, k.F)
+			}
+			for r := 0; r < n; r++ {
+				recs = append(recs, rec(ks, r))
+			}
+		case "fields":
+			var ks []flowh.Kind
+			for i := 0; i < n; i++ {
+				k := fixed[i%len(fixed)]
+				ks = append(ks, k)
+				t.Fields = append(t.Fields, k.F)
+			}
+			recs = []ref.Record{rec(ks, 0), rec(ks, 1)}
+		default:
+			k := vstr
+			if mode == "octetarray-octets" {
+				k = voct
+			}
+			if v9 || k == nil {
+				c.Skip()
+				return
+			}
+			t.Fields = []ref.Field{k.F, fixed[0].F}
+			b := make([]byte, n)
+			for i := range b {
+				b[i] = byte('A' + i%58) // letters and a few punctuation marks incl. backslash
+			}
+			recs = []ref.Record{{ref.Value{Raw: b}, flowh.FillValue(fixed[0], 0, 0, 1)}, {ref.Value{Raw: b[:n/2]}, flowh.FillValue(fixed[0], 0, 1, 1)}}
+		}
+		tpls := map[uint16]ref.Template{300: t}
+		m := &ref.Msg{V9: v9, Hdr: hdrFor(v9, len(recs)+1), Sets: []ref.Set{{Kind: ref.SetTemplates, Templates: []ref.Template{t}}, {Kind: ref.SetData, TemplateID: 300, Records: recs}}}
+		if len(m.Encode(tpls)) > 65000 {
+			c.Skip()
+			return
+		}
+		runJSONMsg(c, v9, m, tpls, fmt.Sprintf("%s = %d", mode, n), "counts:"+mode)
+	}}
 }
